@@ -24,13 +24,14 @@ class C28(Prop):
         "and unicode} x number of run_migrations calls {1,2,3} x connection mode {same connection, new connection per call} x db kind "
         "{file, :memory:}; N is read from the packaged migration files. Fault families over the same start states: the k-th SQL "
         "statement that run_migrations prepares is refused (an error surfaces from the middle of a migration run; every k of the run is "
-        "enumerated, quick tier: every 2nd), or the process stops at that statement boundary (the database files are copied at that "
+        "enumerated, quick tier: every 3rd), or the process stops at that statement boundary (the database files are copied at that "
         "instant and the copy is opened later, as after a kill); then run_migrations runs again without faults and must reach the same "
         "final schema, every version recorded once, rows intact. The final schema of EVERY start state -- every table, the schema_migrations "
         "bookkeeping table included -- is compared with that of a fresh database migrated by the code under test ('yields the same final "
         "schema'). Non-trivial = start state is not fresh, more than one run, or a fault."
     )
     assumptions = [
+        "the 'shipped' / 'shipped_legacy' start states are built from frozen copies of the migration files as released at the pinned commit (vlib/props/c28_shipped/*.sql), not from the files of the tree under test: an edit of an already-shipped file does not change what deployed databases ran",
         "the 'shipped' start states carry the bookkeeping table as existing deployments have it on disk at the pinned commit: "
         "schema_migrations(package TEXT NOT NULL, version INTEGER NOT NULL, applied_at TEXT NOT NULL DEFAULT (datetime('now')), "
         "PRIMARY KEY (package, version)); this layout is frozen in the check (SHIPPED_SCHEMA_MIGRATIONS_DDL) and deliberately NOT read "
@@ -66,19 +67,30 @@ class C28(Prop):
             self.files.append((parse_target_version(txt), txt))
         self.N = len(self.files)
         self._ref = None
+        # the migration files as RELEASED at the pinned commit (frozen copies kept next to this check): what existing deployments
+        # actually ran.  Start states built from them are independent of later edits to already-shipped files.
+        import glob
+
+        here = os.path.join(os.path.dirname(os.path.abspath(__file__)), "c28_shipped")
+        self.shipped_files = []
+        for fp in sorted(glob.glob(os.path.join(here, "*.sql"))):
+            txt = open(fp).read()
+            self.shipped_files.append((parse_target_version(txt), txt))
+        self.NS = len(self.shipped_files)
 
     def enumerate(self, tier):
         starts = (
             [["fresh", 0]]
             + [["recorded", p] for p in range(1, self.N + 1)]
             + [["legacy", p] for p in range(1, self.N + 1)]
-            + [["shipped", p] for p in range(0, self.N + 1)]
+            + [["shipped", p] for p in range(0, self.NS + 1)]
+            + [["shipped_legacy", p] for p in range(1, self.NS + 1)]
         )
         for start, data, runs, mode, kind in itertools.product(starts, ["none", "two", "odd"], [1, 2, 3], ["same", "new"], ["file", "memory"]):
             if kind == "memory" and mode == "new":
                 continue  # a new connection to :memory: is a new database
             yield {"start": start, "data": data, "runs": runs, "mode": mode, "kind": kind}
-        stride = 2 if tier == "quick" else 1
+        stride = 3 if tier == "quick" else 1
         for start in starts:
             n = self._count_callbacks(start)
             for k in range(0, n, stride):
@@ -91,10 +103,21 @@ class C28(Prop):
         if kind == "shipped":
             # a database as a released server left it: bookkeeping table in the released layout, then migration, row, migration, row ...
             conn.executescript(self.SHIPPED_SCHEMA_MIGRATIONS_DDL)
-            for ver, sql in self.files:
+            for ver, sql in self.shipped_files:
                 if ver <= p:
                     conn.executescript(sql)
                     conn.execute("INSERT INTO schema_migrations (package, version) VALUES ('server', ?)", (ver,))
+            rows = self.ROWS[data] if p >= 1 else []
+            for row in rows:
+                conn.execute("INSERT INTO handlers (handler_id, workflow_name, status, ctx) VALUES (?,?,?,?)", row)
+            conn.commit()
+            return rows
+        if kind == "shipped_legacy":
+            # a pre-bookkeeping database as a released server left it: released files 1..p, PRAGMA user_version=p
+            for ver, sql in self.shipped_files:
+                if ver <= p:
+                    conn.executescript(sql)
+            conn.execute(f"PRAGMA user_version={p}")
             rows = self.ROWS[data] if p >= 1 else []
             for row in rows:
                 conn.execute("INSERT INTO handlers (handler_id, workflow_name, status, ctx) VALUES (?,?,?,?)", row)
